@@ -254,7 +254,7 @@ func TestC12(t *testing.T) {
 		"no provers exist in this world, so nothing leaves the reward pool in a reward block",
 		"a gauge's remaining balance after its end is never released by the code; only 'nothing more is released' is asserted there",
 		"coin amounts <= 1e15 base units (18-decimal sdk.Dec rounding stays far below one base unit)")
-	c := chain.New(chain.GenesisOpts{NumAccounts: 3, Balance: sdk.NewCoins(sdk.NewInt64Coin("ujkl", 4_000_000_000_000_000), sdk.NewInt64Coin("uatom", 4_000_000_000_000_000))})
+	c := chain.New(chain.GenesisOpts{NumAccounts: 3, Balance: sdk.NewCoins(sdk.NewInt64Coin("ujkl", 4_000_000_000_000_000), sdk.NewInt64Coin("uatom", 4_000_000_000_000_000), sdk.NewInt64Coin("ibc/voucher", 1_000_000))})
 	defer c.Close()
 
 	// ---- plain regression replay: two equal purchases by different accounts in one block ----
@@ -326,6 +326,18 @@ func TestC12(t *testing.T) {
 		}
 		steps := rapid.IntRange(2, 12).Draw(rt, "blocks")
 		for i := 0; i < steps; i++ {
+			if len(w.order) > 0 && rapid.IntRange(0, 7).Draw(rt, "gift") == 0 {
+				// anybody can send coins to a gauge account (its address derives from the public gauge id); a gift in a
+				// denomination the gauge never held is not part of any deposit and must not disturb the streaming of the deposits
+				g := w.order[rapid.IntRange(0, len(w.order)-1).Draw(rt, "giftTo")]
+				to, err := sdk.AccAddressFromBech32(g)
+				must(err)
+				gift := sdk.NewCoins(sdk.NewInt64Coin("ibc/voucher", rapid.Int64Range(1, 5).Draw(rt, "giftAmount")))
+				if w.c.App.BankKeeper.SendCoins(w.f.Ctx, chain.Acc(0).Addr, to, gift) == nil {
+					w.logf("gift of %s to gauge %s", gift, g[:10])
+					rec.Count("gifts-in-a-foreign-denomination")
+				}
+			}
 			if (len(w.gauges) < 5 || len(w.gauges) > 100) && rapid.IntRange(0, 5).Draw(rt, "createMore") == 0 {
 				create()
 			}
